@@ -5,7 +5,7 @@ use alloc::vec::Vec;
 use hashbrown::HashMap;
 use p3_air::symbolic::AirLayout;
 use p3_air::{Air, SymbolicExpressionExt};
-use p3_batch_stark::symbolic::{get_log_num_quotient_chunks, get_symbolic_constraints};
+use p3_batch_stark::symbolic::get_log_num_quotient_chunks;
 use p3_circuit::CircuitBuilder;
 use p3_circuit::symbolic::{ColumnsTargets, SymbolicCompiler};
 use p3_field::{Algebra, ExtensionField, Field};
@@ -156,11 +156,25 @@ where
             num_permutation_values,
             ..Default::default()
         };
-        let (base_symbolic_constraints, extension_symbolic_constraints) =
-            get_symbolic_constraints(self, layout, contexts, lookup_gadget);
+        // Evaluate the AIR (and its lookups) symbolically once, keeping the global emission
+        // order of the constraints next to the separated base / extension streams.
+        let (permutation_width, num_permutation_values) = if contexts.is_empty() {
+            (0, 0)
+        } else {
+            (contexts.len() + 1, 1)
+        };
+        let layout = AirLayout {
+            permutation_width,
+            num_permutation_challenges: contexts.len() * lookup_gadget.num_challenges(),
+            num_permutation_values,
+            ..layout
+        };
+        let mut symbolic = InteractionSymbolicBuilder::<F, EF>::new(layout);
+        lookup_gadget.eval_air_and_lookups(self, &mut symbolic, contexts);
+        let base_symbolic_constraints = symbolic.base_constraints();
+        let extension_symbolic_constraints = symbolic.extension_constraints();
+        let constraint_layout = symbolic.constraint_layout();
 
-        // Fold all constraints: result = c₀ + α·c₁ + α²·c₂ + ...
-        //
         // Converting directly the tree SymbolicExpression<F> → SymbolicExpression<EF>
         // destroys Arc-based sub-expression sharing and causes exponential blowup.
         // Instead, we lift F → EF constants directly.
@@ -168,17 +182,34 @@ where
         // Additionally, the cache is shared across all constraint calls to reuse circuit
         // operations for sub-expressions shared between different constraints.
         let compiler = SymbolicCompiler::new(sels.row_selectors, &columns);
+        // Fold in GLOBAL emission order, exactly like the native folders:
+        // acc = acc * alpha + constraint, i.e. result = Σ α^{K−1−i}·Cᵢ.
+        // (For an AIR that emits all base constraints before all extension constraints this
+        // produces the same circuit operations, in the same order, as folding the two
+        // streams one after the other.)
+        let mut order = alloc::vec![None; constraint_layout.total_constraints()];
+        for (k, &global_idx) in constraint_layout.base_indices.iter().enumerate() {
+            order[global_idx] = Some((false, k));
+        }
+        for (k, &global_idx) in constraint_layout.ext_indices.iter().enumerate() {
+            order[global_idx] = Some((true, k));
+        }
         let mut acc = builder.define_const(EF::ZERO);
         let mut base_cache = HashMap::new();
-        for s_c in &base_symbolic_constraints {
-            let constraints = compiler.compile_base(s_c, builder, &mut base_cache);
-            acc = builder.mul_add(acc, *alpha, constraints);
-        }
-
         let mut ext_cache = HashMap::new();
-        for s_c in &extension_symbolic_constraints {
-            let constraints = compiler.compile_ext(s_c, builder, &mut base_cache, &mut ext_cache);
-            acc = builder.mul_add(acc, *alpha, constraints);
+        for entry in order {
+            let (is_ext, k) = entry.expect("every emitted constraint is base or extension");
+            let constraint = if is_ext {
+                compiler.compile_ext(
+                    &extension_symbolic_constraints[k],
+                    builder,
+                    &mut base_cache,
+                    &mut ext_cache,
+                )
+            } else {
+                compiler.compile_base(&base_symbolic_constraints[k], builder, &mut base_cache)
+            };
+            acc = builder.mul_add(acc, *alpha, constraint);
         }
 
         builder.pop_scope();
